@@ -345,6 +345,21 @@ func targets() []*target {
 			"(e : Z)", "(lvl : Z)", "(timestamp : Z)", "(stackFrame : Z)", "(msg : bytes)", "(kvps : list attr)"},
 			map[string]callSpec{"*PrintCtx.setentry": {state: "pc_setentry_full " + strings.Join(pcFieldNames(), " ") + " e_useJSON e_useColor e_timeLayout e_modeUTC e_valueStringer e_level e_attrs g_flags", partial: true}}),
 
+		// ---- the skip count (C14 / C10): SetSkip, withSkip, WithSkip.  newChildLogger and withSkip are parameters in
+		// WithSkip: the theorem shows WHICH child name is asked for and that the count is set on THAT child ----
+		{pkg: slogPkg, recv: "Entry", fn: "withSkip", coq: "with_skip", file: "Loggers", strict: true, fallback: "TreeRef.with_skip_ref",
+			effects: []string{"s_extraFrames"}, params: []string{"(s : eref)", "(s_extraFrames : Z)", "(extraFrames : Z)"}, result: "eref * Z", final: "(s, s_extraFrames)",
+			tymap: map[string]string{"*Entry": "eref"}},
+		{pkg: slogPkg, recv: "Entry", fn: "SetSkip", coq: "set_skip", file: "Loggers", strict: true, fallback: "TreeRef.set_skip_ref",
+			calls:   map[string]callSpec{"*Entry.withSkip": {state: "with_skip s s_extraFrames %0", ignoreRes: true}},
+			effects: []string{"s_extraFrames"}, params: []string{"(s : eref)", "(s_extraFrames : Z)", "(extraFrames : Z)"}, result: "Z", final: "s_extraFrames",
+			tymap: map[string]string{"*Entry": "eref"}},
+		{pkg: slogPkg, recv: "Entry", fn: "WithSkip", coq: "with_skip_child", file: "Loggers", strict: true, fallback: "TreeRef.with_skip_child_ref",
+			tymap:  map[string]string{"*Entry": "eref"},
+			calls:  map[string]callSpec{"*Entry.newChildLogger": {pure: "f_newChild %0", spread: true}, "*Entry.withSkip": {pure: "f_withSkip %r %0"}},
+			params: []string{"(f_newChild : bytes -> eref)", "(f_withSkip : eref -> Z -> eref)", "(s_name : bytes)", "(s_extraFrames : Z)", "(extraFrames : Z)"},
+			result: "eref", final: "eref_nil"},
+
 		// ---- RegisterLevel (C17): the options arrive resolved (the regPack fields after every opt ran: o_*);
 		// the seven tables are the state the function hands back; a map write overwrites (mapZ_set / mapB_set) ----
 		{pkg: slogPkg, recv: "", fn: "RegisterLevel", coq: "register", file: "Registry", strict: true, fallback: "RegRef.register_ref",
@@ -498,7 +513,7 @@ var genFiles = [][2]string{
 	{"Escapes", "Require Import Verif.Model.Base Verif.Model.Decision Verif.Model.GoSem Verif.Model.Utf8 Verif.Model.EscRef."},
 	{"Buffers", "Require Import Verif.Model.Base Verif.Model.Decision Verif.Model.GoSem Verif.Model.Utf8 Verif.Model.Buffer Verif.Model.BufRef."},
 	{"Registry", "Require Import Verif.Model.Base Verif.Model.Decision Verif.Model.Dec Verif.Model.GoSem Verif.Model.Level Verif.Model.RegRef."},
-	{"Loggers", "Require Import Verif.Model.Base Verif.Model.Decision Verif.Model.GoSem Verif.Model.TreeRef."},
+	{"Loggers", "Require Import Verif.Model.Base Verif.Model.Decision Verif.Model.Dec Verif.Model.GoSem Verif.Model.TreeRef."},
 	{"Handlers", "Require Import Verif.Model.Base Verif.Model.Decision Verif.Model.GoSem Verif.Model.AdaptRef."},
 	{"Context", "Require Import Verif.Model.Base Verif.Model.Decision Verif.Model.GoSem Verif.Model.Attrs Verif.Model.PcRef."},
 	{"LevelNames", "Require Import Verif.Model.Base Verif.Model.Decision Verif.Model.Dec Verif.Model.GoSem Verif.Model.LevelRef."},
